@@ -85,6 +85,47 @@ def run(ctx, F, cg):
                               "update_measure branches on the written value (line %d) and one side goes on to the next hierarchy without updating the index or marking it stale: overwriting a numeric measure with a string or null leaves the old number in every roll-up, on an index that still counts as usable" % bad)
             else:
                 ctx.ok("R28d", "update_measure|value-independent", "%d value-dependent branch(es); none skips both the index update and the stale marking" % nsw)
+    # ---- R28e: only a (re)build makes an index usable again ---------------------------------------------------------
+    ctx.rule("R28e", "staleness is sticky: outside the construction of a fresh entry (create / rebuild), every assignment to HierarchyEntry.stale is the constant `true` — a measure update that writes `stale = !applied` revives an index whose covering relation has changed")
+    n_st = 0
+    for p_, r_ in sorted(F.fns.items()):
+        if not in_module(p_, "samyama::index::hierarchy::") or "::tests::" in p_:
+            continue
+        if not any(x.endswith("HierarchyEntry.stale") for x in r_["w"]):
+            continue
+        b_ = Body(F.mir(p_), r_)
+        for i, j, pl, rv, line, exp in b_.stmts():
+            if any(x.startswith("f:") and x.endswith("HierarchyEntry.stale") for x in pl[1]):
+                n_st += 1
+                short = p_.replace("samyama::index::hierarchy::manager::", "")
+                if rv[0] == "use" and rv[1][0] == "k" and rv[1][1].strip() == "const true":
+                    ctx.ok("R28e", "%s|stale-write|%d" % (short, line and 0 or 0) + "|%d" % n_st, "assigns true")
+                else:
+                    ctx.violation("R28e", "%s|stale-cleared-outside-rebuild" % short, where(r_, line), "%s assigns a value other than `true` to HierarchyEntry.stale: an entry marked stale by a relationship write can become usable again without being rebuilt, and rewritten queries answer from the old hierarchy" % short)
+    ctx.floor("R28e", "assignments to HierarchyEntry.stale", n_st, 3)
+    # ---- R28f: count(<property>) is not a subtree size ----------------------------------------------------------------
+    ctx.rule("R28f", "the hierarchy rewrite declines count(<property>): counting a property counts the descendants that have a value, which the structural COUNT roll-up (subtree size) does not — the detector's match over (op, argument) has an arm for (Count, Some(_)) that gives up")
+    det = [r_ for p_, r_ in F.fns.items() if p_.startswith("samyama::query::executor::hierarchy_detector::") and p_.rsplit("::", 1)[-1] in ("detect",) and "::tests::" not in p_]
+    if not det:
+        ctx.anchor_failure("R28f", "hierarchy_detector::detect")
+    else:
+        found = None
+        for m_ in F.arms(det[0]["path"]):
+            if "RollupOp" not in m_["sty"]:
+                continue
+            for arm in m_["arms"]:
+                pt = arm["pat"]
+                if pt.get("k") == "tuple" and len(pt["e"]) == 2:
+                    a0, a1 = pt["e"]
+                    if a0.get("k") == "variant" and a0["p"].endswith("RollupOp::Count") and a1.get("k") == "variant" and a1["p"].endswith("Some"):
+                        gives_up = any(c.endswith("Option::None") or c.endswith("::None") for c in arm["ctors"]) or arm.get("n", 0) <= 1 and not arm["calls"]
+                        found = (arm, gives_up)
+        if found is None:
+            ctx.violation("R28f", "detect|count-of-property-rewritten", where(det[0]), "the detector has no arm declining (Count, Some(property)): count(d.p) is rewritten to the structural COUNT roll-up and returns the subtree size instead of the number of descendants that have p")
+        elif not found[1]:
+            ctx.violation("R28f", "detect|count-of-property-not-declined", where(det[0], found[0]["lo"]), "the (Count, Some(_)) arm does not give up the rewrite")
+        else:
+            ctx.ok("R28f", "detect|count-of-property", "(Count, Some(_)) declines the rewrite")
     # ---- R28b ------------------------------------------------------------------------------------------
     users = []
     for p, r in F.fns.items():
